@@ -12,9 +12,13 @@
   * `encode_declaration_order`, `uint_little_endian`, `bitfield_lsb_first`,
     `bitfield_bytes_little_endian`, `bitfield_members_independent`     the wire format
   * `registry_paired`, `registry_exactly_one_counterpart`, `cmdKey_injective`    request/response pairing
+  * `registry_lookup`         what the registry's lookup functions RETURN (by id, by name, by the
+                              counterpart's name, create_response_message) is that pairing
+  * `nonok_cc_encoded_and_stops`, `registry_cc_placement`, `registry_nonok_cc`     completion codes 1..255
 -/
 import PyIpmi.Lemmas.Codec
 import PyIpmi.Gen.Registry
+import PyIpmi.Gen.RegistryLookup
 namespace PyIpmi.Props.C01
 open PyIpmi PyIpmi.Codec
 
@@ -290,6 +294,115 @@ theorem registry_exactly_one_counterpart (m : MsgSpec) (hm : m ∈ PyIpmi.Gen.Re
     (PyIpmi.Gen.Registry.all.filter (isCounterpart m)).length = 1 :=
   paired_count none _ registry_paired m hm
 
+/-! ### the lookup side of the registry
+
+`registry_paired` is about the ids the CLASSES carry.  `Gen.RegistryLookup` (regenerated on
+every run) records what the registry's dict and its `create_*` functions RETURN, as indices
+into `Gen.Registry.all`.  In that listing position `2k` is a request and `2k+1` its response
+(`registry_paired`), so "the neighbour" below is the counterpart. -/
+
+open PyIpmi.Gen in
+/-- * `registry[name]`, `registry[(netfn, cmd, group)]` and `create_message(netfn, cmd, group)` give
+  class `i` itself for the name / ids of class `i`;
+* `create_request_by_name(stem)` / `create_response_by_name(stem)` with `stem` = the name of class `i`
+  without its `Req`/`Rsp` suffix give the request / the response of `i`'s pair: `FooReq` and `FooRsp`
+  are counterparts by NAME exactly as by id;
+* `create_response_message(request i)` gives its response;
+* the dict has one name key and one id key per class and no others, every id key being the ids of
+  the class stored under it. -/
+def lookupOk (all : List MsgSpec) : Bool :=
+  let idl := List.range all.length
+  RegistryLookup.byName == idl && RegistryLookup.byId == idl && RegistryLookup.created == idl
+  && RegistryLookup.requestOf == idl.map (fun i => i - i % 2)
+  && RegistryLookup.responseOf == idl.map (fun i => i - i % 2 + 1)
+  && RegistryLookup.responseTo == idl.map (fun i => if i % 2 = 0 then i + 1 else RegistryLookup.missing)
+  && RegistryLookup.nameKeys == all.length
+  && RegistryLookup.idKeys == (all.zip idl).map (fun mi => (mi.1.netfn, mi.1.cmd, mi.1.group, mi.2))
+
+theorem registry_lookup : lookupOk PyIpmi.Gen.Registry.all = true := by decide +kernel
+
+/-! ### completion codes 1..255
+
+`Fits` (hence `roundtrip`) demands completion code 0: a non-OK code stops decoding by design
+(C02.cc_stops), so the round trip cannot hold there.  What does hold — and is the part of
+"every in-range assignment" that `Fits` cuts away — is stated here: the code is ENCODED as
+the first byte whatever it is, and decoding the encoding stops at it. -/
+
+/-- a response layout: its first field is the (plain) completion code -/
+def leadsWithCc : Layout → Bool
+  | f :: _ => decide (f.prim = .cc) && isPlain f.wrap
+  | [] => false
+
+/-- In-range assignment of a response layout carrying completion code `c`: `c` is a byte and
+the remaining fields fit (lengths / conditions evaluated with `c` as the value of field 0). -/
+def FitsCc : Layout → Nat → List Val → Bool
+  | f :: fs, c, rest =>
+    decide (f.prim = .cc) && isPlain f.wrap && decide (c < 256) && fitsAux [.int c] fs rest
+  | [], _, _ => false
+
+/-- for code 0 this is `Fits` -/
+theorem fitsCc_zero (l : Layout) (rest : List Val) (h : leadsWithCc l = true) :
+    FitsCc l 0 rest = Fits l (.int 0 :: rest) := by
+  cases l with
+  | nil => simp [leadsWithCc] at h
+  | cons f fs =>
+    simp only [leadsWithCc, Bool.and_eq_true, decide_eq_true_eq] at h
+    obtain ⟨hp, hw⟩ := h
+    have hpl : f.wrap = .plain := by
+      cases hfw : f.wrap <;> simp_all [isPlain]
+    simp [FitsCc, Fits, fitsAux, fitsField, fitsPrim, hp, hpl, isPlain]
+
+/-- **Non-OK completion codes are encoded, and decoding stops at them**: for every
+well-formed response layout, every code `c ≠ 0` and every in-range assignment of the other
+fields, encoding succeeds, the first byte IS `c`, and decoding the encoding yields `c`
+followed by the creation defaults of all later fields (not the values that were encoded —
+which is why the round trip is stated for code 0 only). -/
+theorem nonok_cc_encoded_and_stops (l : Layout) (c : Nat) (rest : List Val) (hwf : l.wf = true)
+    (hfit : FitsCc l c rest = true) (hc : c ≠ 0) :
+    ∃ tail, encode l (.int c :: rest) = .ok (c :: tail) ∧ Bytes (c :: tail) ∧
+      decode l (c :: tail) = .ok (.int c :: (defaults l).tail) := by
+  cases l with
+  | nil => simp [FitsCc] at hfit
+  | cons f fs =>
+    simp only [FitsCc, Bool.and_eq_true, decide_eq_true_eq] at hfit
+    obtain ⟨⟨⟨hp, hw⟩, hlt⟩, hr⟩ := hfit
+    have hpl : f.wrap = .plain := by
+      cases hfw : f.wrap <;> simp_all [isPlain]
+    unfold Layout.wf at hwf
+    simp only [Bool.and_eq_true] at hwf
+    have hwf1 := hwf.1
+    simp only [wfAux, Bool.and_eq_true] at hwf1
+    obtain ⟨_, hrest⟩ := hwf1
+    obtain ⟨es, he1, he2, _⟩ := roundtrip_aux ([] ++ [f]) _ ([] ++ [.int c]) fs rest hrest hr
+    simp only [List.nil_append] at he1
+    have hmod : c % 256 = c := Nat.mod_eq_of_lt hlt
+    have hstop : isCcStop f (.int c) = true := by
+      simp [isCcStop, hp, hc]
+    refine ⟨es, ?_, Bytes.cons hlt he2, ?_⟩
+    · simp [encode, encAux, encField, hpl, hp, encPrim, leBytes, he1, hmod]
+    · simp [decode, decAux, decField, hpl, hp, decPrim, popN, leVal, hstop, defaults]
+
+/-- every response class of today's registry that has a layout leads with the completion
+code, and no request class has a completion-code field at all -/
+def ccPlacementOk (all : List MsgSpec) : Bool :=
+  all.all fun m =>
+    if m.isReq then m.layout.all (fun f => decide (f.prim ≠ .cc))
+    else m.layout.isEmpty || (leadsWithCc m.layout && m.layout.tail.all (fun f => decide (f.prim ≠ .cc)))
+
+theorem registry_cc_placement : ccPlacementOk PyIpmi.Gen.Registry.all = true := by decide +kernel
+
+/-- … so the statement holds for every registered response class with fields. -/
+theorem registry_nonok_cc (m : MsgSpec) (hm : m ∈ PyIpmi.Gen.Registry.all) (c : Nat)
+    (rest : List Val) (hfit : FitsCc m.layout c rest = true) (hc : c ≠ 0) :
+    ∃ tail, encode m.layout (.int c :: rest) = .ok (c :: tail) ∧ Bytes (c :: tail) ∧
+      decode m.layout (c :: tail) = .ok (.int c :: (defaults m.layout).tail) := by
+  have h := registry_wf
+  unfold registryOk at h
+  rw [List.all_eq_true] at h
+  have hm' := h m hm
+  simp only [Bool.and_eq_true] at hm'
+  exact nonok_cc_encoded_and_stops m.layout c rest hm'.2 hfit hc
+
 /-! ### non-vacuity: concrete, non-trivial objects meeting the hypotheses -/
 
 /-- a layout with every construct (cc, bit-field, conditional, optional tail) -/
@@ -309,6 +422,14 @@ example : encode demoLayout [.int 0, .bits [1, 3, 31], .int 2, .arr [7, 255], .i
     = .ok [0, 0xFF, 2, 7, 255, 0xEF, 0xBE, 9] := by decide
 example : ∃ m ∈ PyIpmi.Gen.Registry.all, m.name = "GetFruLedStateRsp" ∧
     Fits m.layout [.int 0, .int 0, .bits [1, 1, 0, 3], .int 1, .int 2, .int 3, .int 4, .int 5, .int 6, .int 0] = true := by
+  decide +kernel
+example : FitsCc demoLayout 0xC1 [.bits [1, 3, 31], .int 2, .arr [7, 255], .int 0xBEEF, .int 9, .none] = true := by
+  decide
+example : encode demoLayout [.int 0xC1, .bits [1, 3, 31], .int 2, .arr [7, 255], .int 0xBEEF, .int 9, .none]
+    = .ok [0xC1, 0xFF, 2, 7, 255, 0xEF, 0xBE, 9] := by decide
+example : decode demoLayout [0xC1, 0xFF, 2, 7, 255, 0xEF, 0xBE, 9]
+    = .ok [.int 0xC1, .bits [0, 0, 0], .int 0, .none, .int 0, .none, .none] := by decide
+example : ∃ m ∈ PyIpmi.Gen.Registry.all, m.name = "GetDeviceIdRsp" ∧ leadsWithCc m.layout = true := by
   decide +kernel
 
 end PyIpmi.Props.C01
